@@ -35,6 +35,13 @@ theorem c14_apply_accepts_iff (avail l : List α) :
   rw [applyFrom_ok_iff]
   simp only [Nat.zero_add]
 
+/-- the order rules are enforced on whatever list is handed in, through either keyword: the verdict for a
+list passed as `preproc_names` is the verdict for the same list passed as `identifiers` -/
+theorem c14_apply_any_entry (avail l : List α) (other : Option (List α)) :
+    applyArgs T avail other (some l) = applyOrder T avail l ∧
+    applyArgs T avail (some l) none = applyOrder T avail l := by
+  simp [applyArgs, resolveIds]
+
 /-- unknown identifiers are rejected by `apply` -/
 theorem c14_unknown_rejected (avail l : List α) (a : α) (ha : a ∈ l) (hu : a ∉ avail) :
     applyOrder T avail l ≠ .ok () := by
